@@ -194,6 +194,7 @@ typedef struct thread_pool_s { /* thread pool */
 	tpt_p		pvt;		/* Pool virtual thread. */
 	volatile size_t	rr_idx;
 	volatile size_t	shutdown;
+	volatile size_t	shutdown_done;	/* tp_shutdown() that set shutdown have finished. */
 	size_t		cpu_count;
 	uintptr_t	fd_count;
 	tp_settings_t	s;
@@ -1180,6 +1181,9 @@ tp_shutdown(tp_p tp) {
 		tpt_msg_send(&tp->threads[i], NULL, TP_MSG_F_FAIL_DIRECT,
 		    tpt_msg_shutdown_cb, NULL);
 	}
+	/* Last access to tp: tp_destroy() from other thread wait for this. */
+	__sync_synchronize();
+	tp->shutdown_done = 1;
 }
 
 int
@@ -1196,6 +1200,10 @@ tp_shutdown_wait(tp_p tp) {
 	if (0 != tp_thread_is_tp_thr(tp, NULL))
 		return (EDEADLK);
 
+	/* Other thread may be still inside tp_shutdown(). */
+	while (0 == tp->shutdown_done) {
+		nanosleep(&rqts, NULL); /* Ignore early wakeup and errors. */
+	}
 	for (size_t i = 0; i < tp->s.threads_max; i ++) {
 		if (0 != __sync_lock_test_and_set(&tp->threads[i].created, 0)) {
 			/* Only one waiter joins a created thread. */
@@ -1209,6 +1217,9 @@ tp_shutdown_wait(tp_p tp) {
 			nanosleep(&rqts, NULL); /* Ignore early wakeup and errors. */
 		}
 	}
+	/* Messages that was accepted for pool virtual thread and no worker
+	 * read: do not lost them. */
+	tpt_msg_queue_drain(tp->pvt->msg_queue);
 
 	return (0);
 }
@@ -1273,11 +1284,12 @@ tp_threads_create(tp_p tp, const int skip_first) {
 
 	for (size_t i = ((0 != skip_first) ? 1 : 0); i < tp->s.threads_max; i ++) {
 		tpt = &tp->threads[i];
+		/* Claim the slot in one step: other thread may do the same now. */
 		if (NULL == tpt->tp ||
-		    TP_THREAD_STATE_STOP != tpt->state ||
-		    0 != tpt->created)
+		    0 != tpt->created ||
+		    0 == __sync_bool_compare_and_swap(&tpt->state,
+		     TP_THREAD_STATE_STOP, TP_THREAD_STATE_STARTING))
 			continue;
-		tpt->state = TP_THREAD_STATE_STARTING;
 		tpt->created = 1;
 		error = pthread_create_eagain(&tpt->pt_id, NULL,
 		    tp_thread_proc, tpt);
@@ -1300,10 +1312,11 @@ tp_thread_attach_first(tp_p tp) {
 		return (EBUSY);
 
 	tpt = &tp->threads[0];
-	if (TP_THREAD_STATE_STOP != tpt->state)
+	/* Claim the slot in one step: tp_threads_create() may do the same now. */
+	if (0 != tpt->created ||
+	    0 == __sync_bool_compare_and_swap(&tpt->state,
+	     TP_THREAD_STATE_STOP, TP_THREAD_STATE_STARTING))
 		return (ESPIPE);
-
-	tpt->state = TP_THREAD_STATE_STARTING;
 	tpt->pt_id = pthread_self();
 
 	tp_thread_proc(tpt);
@@ -1316,7 +1329,11 @@ tp_thread_dettach(tpt_p tpt) {
 
 	if (NULL == tpt)
 		return (EINVAL);
-	tpt->state = TP_THREAD_STATE_STOP;
+	/* Not STOP: thread have to leave the loop, drain and call the stop
+	 * hook first, it set STOP by self as its last access. */
+	if (TP_THREAD_STATE_STOP != tpt->state) { /* No thread - nobody will set STOP. */
+		tpt->state = TP_THREAD_STATE_STOPING;
+	}
 	return (0);
 }
 
